@@ -1,4 +1,5 @@
 import SigHook.Model.Iterator
+import SigHook.Model.Skel
 /-!
 # C11 — close() is sticky, unblocks every consumer, and never strands an async poller
 
@@ -192,5 +193,14 @@ theorem C11_same_schedule_after_fix :
 
 /-- tie: the source currently has the fixed shape -/
 theorem C11_source_rechecks : Gen.pollRechecksClosed = true := by decide
+
+
+/-- **C11.close_and_poll_skeleton** — tie to the source (regenerated): `close()` stores the flag
+and then wakes; `poll_pending` checks the flag before asking the callback; `poll_signal` checks it
+before each round and again after a `None` from `poll_pending`. -/
+theorem C11_close_and_poll_skeleton :
+    skelOf backendFile "close" = ["closed.store", "wake"] ∧
+    skelOf backendFile "poll_pending" = ["is_closed", "has_signals", "pending"] ∧
+    skelOf backendFile "poll_signal" = ["is_closed", "iter.next", "poll_pending", "is_closed"] := by decide
 
 end SigHook.Iter
